@@ -239,6 +239,10 @@ class ScriptedNDB:
         if not any(r["dst"] == NEXTHOPS[h] for r in self.neighbours.rows):
             self.neighbours.rows.append({"ifindex": 0, "dst": NEXTHOPS[h], "lladdr": MACS[self.macs[h]]})
 
+    def forget(self, h):
+        # the neighbour entry ages out of the kernel's table (the controller ignores RTM_DELNEIGH)
+        self.neighbours.rows = [r for r in self.neighbours.rows if r["dst"] != NEXTHOPS[h]]
+
 
 def route_msg(event, p, h, i):
     prefix, plen = PREFIXES[p]
@@ -272,6 +276,8 @@ class World:
             self.ctl._netlink_route_handler(None, route_msg("RTM_NEWROUTE", ev[1], ev[2], ev[3]))
         elif ev[0] == "D":
             self.ctl._netlink_route_handler(None, route_msg("RTM_DELROUTE", ev[1], ev[2], ev[3]))
+        elif ev[0] == "F":
+            self.ndb.forget(ev[1])
         else:
             self.ndb.learn(ev[1])       # the kernel's neighbour table has the entry when the event is delivered
             self.ctl._netlink_neighbor_handler(None, neigh_msg(ev[1], MACS[self.macs[ev[1]]]))
@@ -482,7 +488,17 @@ def main():
         [(N, 0, 2, 1), (G, 2), (N, 1, 0, 0), (G, 0), (N, 2, 1, 0), (G, 1),  # both interfaces, default route,
          (D, 1, 0, 0), (N, 1, 0, 0), (G, 0), (D, 0, 2, 1)],                 # a gate is not reused
     ]
-    tasks = [("paths", [(m, none, std, p) for p in paths] +
+    F = "F"
+    aging = [
+        # the neighbour entry ages out of the kernel's table (the controller ignores RTM_DELNEIGH); a route added then waits,
+        # and is installed when the next hop is resolved again - with the same MAC
+        [(N, 1, 0, 0), (G, 0), (F, 0), (N, 2, 0, 0), (G, 0)],
+        [(G, 0), (N, 1, 0, 0), (F, 0), (N, 2, 0, 0), (N, 0, 0, 0), (G, 0), (D, 1, 0, 0), (D, 2, 0, 0), (D, 0, 0, 0)],
+        [(N, 1, 0, 0), (G, 0), (F, 0), (N, 2, 0, 0), (D, 1, 0, 0), (G, 0), (D, 2, 0, 0)],
+        [(N, 0, 2, 1), (G, 2), (F, 2), (G, 2), (N, 1, 2, 1), (F, 2), (N, 2, 2, 1), (G, 2)],
+    ]
+    tasks = [("aging", [(m, none, std, p) for p in aging])]
+    tasks += [("paths", [(m, none, std, p) for p in paths] +
               [(m, (True, False, False), std, [(N, 1, 0, 0), (D, 1, 0, 0)])])]   # MAC in the neighbour table at start
     for family, ifmap, length in (("exhaustive-2+1", (0, 0, 1), exh_a), ("exhaustive-3+0", (0, 0, 0), exh_b)):
         split = min(2, length)
@@ -497,7 +513,40 @@ def main():
         if pairs and rng.random() < 0.4:        # one router seen from both interfaces
             a, b = rng.choice(pairs)
             macs[b] = macs[a]
-        chunk.append((ifmap, known0, tuple(macs), random_sequence(rng, ifmap, max_len)))
+        evs = random_sequence(rng, ifmap, max_len)
+        if rng.random() < 0.3:                  # some sequences with neighbour aging: a resolved next hop leaves the kernel's table
+            known = set(h for h in range(len(NEXTHOPS)) if known0[h])
+            out = []
+            for ev in evs:
+                out.append(ev)
+                if ev[0] == "G":
+                    known.add(ev[1])
+                if known and rng.random() < 0.15:
+                    h = rng.choice(sorted(known))
+                    known.discard(h)
+                    out.append(("F", h))
+            # a route added while its next hop had aged out waits again; deleting it before the next hop is resolved again makes
+            # the controller delete an entry it never installed (outside the property, which quantifies over additions, deletions
+            # and resolutions): the next hop is resolved again before such a deletion
+            ndb = set(h for h in range(len(NEXTHOPS)) if known0[h])
+            ever = set(ndb)
+            again, fixed = {}, []
+            for ev in out:
+                if ev[0] == "D" and (ev[3], ev[1]) in again:
+                    h = again[(ev[3], ev[1])]
+                    fixed.append(("G", h))
+                    ndb.add(h)
+                    again = {k: v for k, v in again.items() if v != h}
+                fixed.append(ev)
+                if ev[0] == "G":
+                    ndb.add(ev[1]); ever.add(ev[1])
+                    again = {k: v for k, v in again.items() if v != ev[1]}
+                elif ev[0] == "F":
+                    ndb.discard(ev[1])
+                elif ev[0] == "N" and ev[2] in ever and ev[2] not in ndb:
+                    again[(ev[3], ev[1])] = ev[2]
+            evs = fixed
+        chunk.append((ifmap, known0, tuple(macs), evs))
         if len(chunk) == 200:
             tasks.append(("random", chunk))
             chunk = []
